@@ -25,6 +25,7 @@ func main() {
 	flag.IntVar(&opt.StepBudget, "steps", 0, "override step budget")
 	flag.IntVar(&opt.QTimeout, "qtimeout", 0, "override solver timeout per query (ms)")
 	flag.StringVar(&opt.DumpSMT, "dump-smt", "", "directory for SMT-LIB transcripts")
+	replay := flag.String("replay", "", "replay one counterexample file natively")
 	flag.Parse()
 	if opt.Property == "" && flag.NArg() > 0 {
 		opt.Property = flag.Arg(0)
@@ -41,6 +42,9 @@ func main() {
 	if opt.Property == "" {
 		fmt.Fprintln(os.Stderr, "usage: symgo -property C03 [-tier quick|thorough]")
 		os.Exit(2)
+	}
+	if *replay != "" {
+		os.Exit(driver.ReplayOne(opt, *replay))
 	}
 	os.Exit(driver.Run(opt))
 }
